@@ -3,7 +3,7 @@ import itertools, random
 from vf.common import ITYPES
 from harness.gen_map import cxx_extents, KINDS
 
-KTYPE = {'i': 'SI', 'r': 'SR', 't': 'ST', 'f': 'SF', 's': 'SS', 'I': 'SCI', 'R': 'SCR', 'S': 'SCS', 'Q': 'SCQ'}
+KTYPE = {'i': 'SI', 'r': 'SR', 't': 'ST', 'f': 'SF', 's': 'SS', 'I': 'SCI', 'R': 'SCR', 'S': 'SCS', 'Q': 'SCQ', 'U': 'SCU', 'Z': 'SCZ'}
 BASIC = 'irfs'
 
 def instances(full=False):
@@ -21,7 +21,7 @@ def instances(full=False):
                     out.append((kind, t, tuple([None] * r), ks))
     # compile-time valued slices, tuples, rank 4, static source extents (fewer index types)
     extra = ['t', 'I', 'R', 'S', 'tI', 'It', 'fR', 'Rf', 'RI', 'IR', 'Sf', 'fS', 'SI', 'tS', 'ft', 'tf',
-             'Q', 'fQ', 'Qf', 'QI', 'iQ', 'ffI', 'Rff', 'ffR', 'IfR', 'fSI', 'tIf', 'ifrs', 'ffri', 'irff', 'sfif', 'ffff', 'iiii', 'rfii', 'iifr']
+             'Q', 'fQ', 'Qf', 'QI', 'iQ', 'U', 'Uf', 'fU', 'Ur', 'rU', 'UU', 'Ui', 'iU', 'fUr', 'Z', 'Zf', 'fZ', 'rZ', 'ffI', 'Rff', 'ffR', 'IfR', 'fSI', 'tIf', 'ifrs', 'ffri', 'irff', 'sfif', 'ffff', 'iiii', 'rfii', 'iifr']
     for t in ('i32', 'u16', 'i64'):
         for ks in extra:
             for kind in ('left', 'right', 'stride'):
@@ -55,4 +55,4 @@ def sources(insts, ntu=32):
     return srcs
 
 def lite(insts):
-    return [i for i in insts if i[1] in ('i32', 'u8') and len(i[3]) <= 2 and all(k in 'irfst' for k in i[3])] + [i for i in insts if i[1] == 'i32' and any(k in 'IRSQ' for k in i[3])]
+    return [i for i in insts if i[1] in ('i32', 'u8') and len(i[3]) <= 2 and all(k in 'irfst' for k in i[3])] + [i for i in insts if i[1] == 'i32' and any(k in 'IRSQUZ' for k in i[3])]
